@@ -160,7 +160,8 @@ pub static OPS: &[Op] = &[
         let (x, y) = (a[0].total(), a[1].total());
         let r = a[0].dur() == a[1].dur();
         let ok = if x == y { r } else if r { x == -y && x.abs() <= NPC } else { true };
-        (if ok { "ok".into() } else { format!("== is {} for counts {} and {}", r, x, y) }, "ok".into())
+        let ne = a[0].dur() != a[1].dur();
+        (if !ok { format!("== is {} for counts {} and {}", r, x, y) } else if ne == r { format!("!= is {} although == is {} for counts {} and {}", ne, r, x, y) } else { "ok".into() }, "ok".into())
     }},
     Op { name: "cmp", sig: &[Ty::Dur, Ty::Dur], pre: always, f: |a| {
         (ord_s(a[0].dur().cmp(&a[1].dur())), ord_s(a[0].total().cmp(&a[1].total())))
@@ -184,7 +185,8 @@ pub static OPS: &[Op] = &[
         let (x, y) = (a[0].total(), unit_ns(a[1].unit()));
         let r = a[0].dur() == a[1].unit();
         let ok = if x == y { r } else if r { x == -y && x.abs() <= NPC } else { true };
-        (if ok { "ok".into() } else { format!("== is {} for counts {} and {}", r, x, y) }, "ok".into())
+        let ne = a[0].dur() != a[1].dur();
+        (if !ok { format!("== is {} for counts {} and {}", r, x, y) } else if ne == r { format!("!= is {} although == is {} for counts {} and {}", ne, r, x, y) } else { "ok".into() }, "ok".into())
     }},
     Op { name: "partial_cmp_unit", sig: &[Ty::Dur, Ty::Unit], pre: always, f: |a| {
         // the given duration, and the durations at and next to plus / minus one unit
@@ -308,8 +310,8 @@ pub static OPS: &[Op] = &[
         let e = Epoch::from_duration(a[0].dur(), a[1].ts());
         let f = Epoch::from_duration(a[2].dur(), a[3].ts());
         let (x, y) = (a[0].total() + scale_zero(a[1].ts()).unwrap(), a[2].total() + scale_zero(a[3].ts()).unwrap());
-        (format!("{:?} {:?} eq={} eq'={} lt={} gt={} min={} max={}", e.cmp(&f), e.partial_cmp(&f), e == f, f == e, e < f, e > f, e.min(f) == (if x <= y { e } else { f }), e.max(f) == (if x >= y { e } else { f })),
-         format!("{:?} {:?} eq={} eq'={} lt={} gt={} min=true max=true", x.cmp(&y), Some(x.cmp(&y)), x == y, x == y, x < y, x > y))
+        (format!("{:?} {:?} eq={} eq'={} lt={} gt={} min={} max={} ne={} le={} ge={}", e.cmp(&f), e.partial_cmp(&f), e == f, f == e, e < f, e > f, e.min(f) == (if x <= y { e } else { f }), e.max(f) == (if x >= y { e } else { f }), e != f, e <= f, e >= f),
+         format!("{:?} {:?} eq={} eq'={} lt={} gt={} min=true max=true ne={} le={} ge={}", x.cmp(&y), Some(x.cmp(&y)), x == y, x == y, x < y, x > y, x != y, x <= y, x >= y))
     }},
     Op { name: "epoch_cmp_same_scale", sig: &[Ty::Dur, Ty::Dur, Ty::Ts], pre: always, f: |a| {
         let e = Epoch::from_duration(a[0].dur(), a[2].ts());
@@ -353,6 +355,31 @@ pub static OPS: &[Op] = &[
         } else {
             (format!("eq={} ne={} cmp={:?} pcmp={:?}", t == u, t != u, t.cmp(&u), t.partial_cmp(&u)), format!("eq={} ne={} cmp={:?} pcmp={:?}", it == iu, it != iu, it.cmp(&iu), Some(it.cmp(&iu))))
         }
+    }},
+    Op { name: "epoch_sub_epoch_utc", sig: &[Ty::Dur, Ty::Dur, Ty::UTs], pre: |a| a[0].total().abs() < 1000 * NPC, f: |a| {
+        // Epoch - Epoch with a UTC operand: the difference is measured in the LEFT operand's scale after re-expressing the right
+        // operand in it (seed C04-J: a UTC left operand measured in the right operand's scale is off by the leap seconds
+        // inserted between the two instants).  The other operand lies within +/- 100 s of the UTC operand's instant.
+        let s = 1_000_000_000i128;
+        let u = Epoch::from_duration(a[0].dur(), TimeScale::UTC);
+        let iu = a[0].total() + offset_at_utc_ns(a[0].total()) * s;
+        let sel = a[1].total().rem_euclid(3);
+        let it = if sel == 0 {
+            iu + [-20 * s, 20 * s, -s, s, 40 * s, -40 * s, 0, 1][(a[1].total().rem_euclid(24) / 3) as usize]
+        } else {
+            iu + (a[1].total().rem_euclid(200 * s + 1) - 100 * s)
+        };
+        let tab = leap_table();
+        let inside = tab.iter().enumerate().any(|(i, (ts, d))| { let prev = if i == 0 { 0 } else { d - 1 }; it >= (ts + prev) * s && it < (ts + d) * s });
+        let zero = scale_zero(a[2].ts()).unwrap();
+        let (fc, fnn) = parts_of(it - zero);
+        let f = Epoch::from_duration(Duration::from_parts(fc, fnn), a[2].ts());
+        // UTC count of the instant `it`: the unique v with v + offset(v) == it (none inside an inserted second)
+        let mut v = it;
+        for (ts, d) in tab.iter().rev() { if it - d * s >= ts * s { v = it - d * s; break; } }
+        let left_utc = if inside { "unspecified".to_string() } else { show_d(u - f) };
+        let left_utc_e = if inside { "unspecified".to_string() } else { show_total(a[0].total() - v) };
+        (format!("{} {}", left_utc, show_d(f - u)), format!("{} {}", left_utc_e, show_total(it - iu)))
     }},
     // ---------------------------------------------------------------- C14 epoch snapping
     Op { name: "epoch_floor_ceil_round", sig: &[Ty::Dur, Ty::Ts, Ty::Dur], pre: no_d1_snap, f: |a| {
@@ -424,6 +451,34 @@ pub static OPS: &[Op] = &[
             k += 1;
         }
         exp += "then true true";
+        // provided Iterator methods built on next(): a for loop, step_by, and nth / skip after partial consumption (seed C15-K)
+        let mk = || if incl { TimeSeries::inclusive(start, end, step) } else { TimeSeries::exclusive(start, end, step) };
+        let item = |e: Epoch| format!("{}{:?};", show_d(e.duration), e.time_scale);
+        let want = |i: i128| format!("{}{:?};", show_total(a[0].total() + i * a[4].total()), a[1].ts());
+        let total_items = k;
+        got += " | for:";
+        let mut cnt = 0i128;
+        for e in mk() { if cnt < 3 { got += &item(e); } cnt += 1; if cnt > 2100 { break; } }
+        got += &format!("#{}", cnt);
+        exp += " | for:";
+        for i in 0..total_items.min(3) { exp += &want(i); }
+        exp += &format!("#{}", total_items);
+        got += " | step_by(3):";
+        for e in mk().step_by(3).take(4) { got += &item(e); }
+        exp += " | step_by(3):";
+        for j in 0..4 { if 3 * j < total_items { exp += &want(3 * j); } }
+        got += " | next,next,nth(1):";
+        let mut it = mk();
+        let _ = it.next(); let _ = it.next();
+        got += &match it.nth(1) { Some(e) => item(e), None => "None".to_string() };
+        exp += " | next,next,nth(1):";
+        exp += &if 3 < total_items { want(3) } else { "None".to_string() };
+        got += " | next,skip(2):";
+        let mut it = mk();
+        let _ = it.next();
+        got += &match it.skip(2).next() { Some(e) => item(e), None => "None".to_string() };
+        exp += " | next,skip(2):";
+        exp += &if 3 < total_items { want(3) } else { "None".to_string() };
         (got, exp)
     }},
     // ---------------------------------------------------------------- C08 gregorian construction
@@ -433,8 +488,12 @@ pub static OPS: &[Op] = &[
         let r = Epoch::maybe_from_gregorian(y as i32, mo as u8, d as u8, h as u8, mi as u8, s as u8, ns as u32, a[7].ts());
         let valid = strict_valid(y, mo, d, h, mi, s, ns);
         let reject = must_reject(y, mo, d, h, mi, s, ns);
+        // the public predicate must draw the same line as the constructor
+        let pv = hifitime::is_gregorian_valid(y as i32, mo as u8, d as u8, h as u8, mi as u8, s as u8, ns as u32);
         let verdict = if valid && r.is_err() { "valid date-time rejected".to_string() }
-            else if reject && r.is_ok() { "invalid date-time accepted".to_string() } else { "ok".to_string() };
+            else if reject && r.is_ok() { "invalid date-time accepted".to_string() }
+            else if valid && !pv { "is_gregorian_valid rejects a valid date-time".to_string() }
+            else if reject && pv { "is_gregorian_valid accepts an invalid date-time".to_string() } else { "ok".to_string() };
         (verdict, "ok".to_string())
     }},
     // the wrappers around maybe_from_gregorian: the panicking ones must panic exactly where the fallible one returns an error
@@ -568,7 +627,11 @@ pub static OPS: &[Op] = &[
             (y as i32, mo as u8, d as u8, (r / 3_600_000_000_000) as u8, (r / 60_000_000_000 % 60) as u8, (r / 1_000_000_000 % 60) as u8, (r % 1_000_000_000) as u32) };
         let own = fields(a[0].total() + greg_zero(a[1].ts()));
         const MONTHS: [&str; 12] = ["January", "February", "March", "April", "May", "June", "July", "August", "September", "October", "November", "December"];
-        (format!("{:?} {:?}", e.to_gregorian_tai(), e.month_name()), format!("{:?} {}", fields(tai), MONTHS[(own.1 - 1) as usize]))
+        // the UTC views are relational: the fields / Julian date of the UTC count the crate itself computes (C06 decides that count)
+        let (uc, un) = e.to_utc_duration().to_parts();
+        let utc = uc as i128 * NPC + un as i128;
+        (format!("{:?} {:?} {:?} {}", e.to_gregorian_tai(), e.month_name(), e.to_gregorian_utc(), show_d(e.to_jde_utc_duration())),
+         format!("{:?} {} {:?} {}", fields(tai), MONTHS[(own.1 - 1) as usize], fields(utc), show_total(utc + 2_415_020 * DAY_NS + DAY_NS / 2)))
     }},
     Op { name: "gregorian_build", sig: &[Ty::I32, Ty::U8, Ty::U8, Ty::U8, Ty::U8, Ty::U8, Ty::U32, Ty::Ts], pre: |a| {
         a[0].int().abs() <= 100_000 && strict_valid(a[0].int(), a[1].int(), a[2].int(), a[3].int(), a[4].int(), a[5].int(), a[6].int()) && a[5].int() < 60
